@@ -146,6 +146,14 @@ func (t *c35Txn) describe() {
 	}
 }
 
+// a zero-length name is nil, as in every transaction decoded from the wire (omitempty)
+func c35BoxName(n string) []byte {
+	if n == "" {
+		return nil
+	}
+	return []byte(n)
+}
+
 func (t *c35Txn) real() transactions.SignedTxn {
 	var s transactions.SignedTxn
 	tx := &s.Txn
@@ -171,7 +179,7 @@ func (t *c35Txn) real() transactions.SignedTxn {
 				case "locals":
 					rr.Locals = transactions.LocalsRef{Address: uint64(r.AI), App: uint64(r.PI)}
 				case "box":
-					rr.Box = transactions.BoxRef{Index: uint64(r.PI), Name: []byte(r.Name)}
+					rr.Box = transactions.BoxRef{Index: uint64(r.PI), Name: c35BoxName(r.Name)}
 				}
 				tx.Access = append(tx.Access, rr)
 			}
@@ -184,11 +192,7 @@ func (t *c35Txn) real() transactions.SignedTxn {
 				tx.ForeignApps = append(tx.ForeignApps, basics.AppIndex(a))
 			}
 			for _, b := range t.Boxes {
-				if b.Empty {
-					tx.Boxes = append(tx.Boxes, transactions.BoxRef{})
-				} else {
-					tx.Boxes = append(tx.Boxes, transactions.BoxRef{Index: uint64(b.Idx), Name: []byte(b.Name)})
-				}
+				tx.Boxes = append(tx.Boxes, transactions.BoxRef{Index: uint64(b.Idx), Name: c35BoxName(b.Name)})
 			}
 		}
 	case "pay":
@@ -733,7 +737,10 @@ func (m *c35Model) boxRefs() (map[string]bool, int) {
 			continue
 		}
 		for _, b := range t.Boxes {
-			if b.Empty {
+			// Only the completely empty reference {index 0, no name} is a spare reference that a freshly
+			// created app may spend on a box nobody named. {index n != 0, no name} is a legal reference to
+			// the zero-length name of a foreign app (it only adds i/o quota) and grants nothing.
+			if b.Idx == 0 && b.Name == "" {
 				quota++
 				continue
 			}
@@ -872,15 +879,19 @@ func c35GenAppl(r *kit.Rand, underTest bool) c35Txn {
 			t.Apps = append(t.Apps, c35Apps[r.Intn(4)])
 		}
 		for i, n := 0, few(); i < n; i++ {
-			if r.Chance(1, 4) {
-				t.Boxes = append(t.Boxes, c35Box{Empty: true})
-				continue
+			// every combination of index 0 / foreign index (/ dangling index) x named / name-less
+			idx := 0
+			if len(t.Apps) > 0 && r.Bool() {
+				idx = 1 + r.Intn(len(t.Apps))
 			}
-			idx := r.Intn(len(t.Apps) + 1)
 			if r.Chance(1, 15) {
 				idx = len(t.Apps) + 1 // dangling index: contributes nothing
 			}
-			t.Boxes = append(t.Boxes, c35Box{Idx: idx, Name: c35Names[r.Intn(len(c35Names))]})
+			name := c35Names[r.Intn(len(c35Names))]
+			if r.Chance(1, 3) {
+				name = ""
+			}
+			t.Boxes = append(t.Boxes, c35Box{Idx: idx, Name: name, Empty: idx == 0 && name == ""})
 		}
 		return t
 	}
@@ -923,7 +934,11 @@ func c35GenAppl(r *kit.Rand, underTest bool) c35Txn {
 		if len(appIx) > 0 && r.Bool() {
 			pi = appIx[r.Intn(len(appIx))]
 		}
-		t.Access = append(t.Access, c35Ref{Kind: "box", PI: pi, Name: c35Names[r.Intn(len(c35Names))]})
+		name := c35Names[r.Intn(len(c35Names))]
+		if pi != 0 && r.Chance(1, 4) {
+			name = "" // name-less reference to a listed app: i/o quota only (with index 0 it would be an empty entry)
+		}
+		t.Access = append(t.Access, c35Ref{Kind: "box", PI: pi, Name: name})
 	}
 	if r.Chance(1, 3) {
 		t.Access = append(t.Access, c35Ref{Kind: "empty"})
@@ -1552,7 +1567,7 @@ func c35Class(op string) string {
 func TestVerifC35Resources(t *testing.T) {
 	c := kit.Start(t, "C35", "resources")
 	defer c.Finish()
-	c.Rule("PRNG groups of 1..4 transactions (application calls with program versions 2..14 weighted around the version boundaries 4/6/7/8/9/13, payments, asset transfers/freezes/configs incl. asset creation, key registrations) over 5 accounts, 4 assets, 4 apps (+ apps/assets created in the group), 6 box names; application calls carry random foreign arrays (accounts incl. app accounts, assets, apps, box references with index 0 / foreign index / dangling index / empty) or, from v9, an access list (addresses, assets, apps, explicit holdings, locals, boxes, empty entries); transactions before the one under test run trivial approving programs (so creations register); the program under test performs ONE access opcode (balance, min_balance, acct_params_get, voter_params_get, asset_params_get, asset_holding_get, app_params_get, app_global_get_ex, app_opted_in, app_local_get_ex, app_local_get/put/del, box_len/get/create/del/put, two consecutive box_create, app_box_len/get, itxn_field Receiver/AssetReceiver/Accounts/XferAsset/Assets/ApplicationID/Applications, a submitted inner asset transfer, a submitted inner application call into a callee of version 6/8/9/13 with account/asset/app arrays) on a random resource given by index (incl. out of range) or by value (incl. app accounts, created things, things nobody mentions); distinct = distinct (version, opcode, by-index/by-value, model verdict and reason, group size, access-list use)")
+	c.Rule("PRNG groups of 1..4 transactions (application calls with program versions 2..14 weighted around the version boundaries 4/6/7/8/9/13, payments, asset transfers/freezes/configs incl. asset creation, key registrations) over 5 accounts, 4 assets, 4 apps (+ apps/assets created in the group), 6 box names; application calls carry random foreign arrays (accounts incl. app accounts, assets, apps, box references with every combination of index 0 / foreign index / dangling index x named / name-less, the completely empty one being the only spare reference) or, from v9, an access list (addresses, assets, apps, explicit holdings, locals, boxes, empty entries); transactions before the one under test run trivial approving programs (so creations register); the program under test performs ONE access opcode (balance, min_balance, acct_params_get, voter_params_get, asset_params_get, asset_holding_get, app_params_get, app_global_get_ex, app_opted_in, app_local_get_ex, app_local_get/put/del, box_len/get/create/del/put, two consecutive box_create, app_box_len/get, itxn_field Receiver/AssetReceiver/Accounts/XferAsset/Assets/ApplicationID/Applications, a submitted inner asset transfer, a submitted inner application call into a callee of version 6/8/9/13 with account/asset/app arrays) on a random resource given by index (incl. out of range) or by value (incl. app accounts, created things, things nobody mentions); distinct = distinct (version, opcode, by-index/by-value, model verdict and reason, group size, access-list use)")
 	c.Assume("upstream in-package test Ledger as state (every account holds every asset and is opted in to every pre-existing app, every pre-existing app has every box, ForeignBoxReads set) so that an available access does not fail for unrelated reasons; programs assembled with the assembler under test; app address derivation (hash) trusted")
 	n := c.N(60000, 1500000)
 	var wg sync.WaitGroup
